@@ -269,6 +269,7 @@ func c18Gen(seed uint64) c18Case {
 		for _, i := range r.Perm(len(pool))[:1+r.IntN(2)] {
 			cs.Globals = append(cs.Globals, pool[i])
 		}
+		cs.DupGlobals = r.IntN(3) == 0
 	}
 	homeFile := false
 	switch cs.Mode {
